@@ -17,6 +17,7 @@
 from __future__ import annotations
 
 import datetime
+import gzip
 import warnings
 from collections.abc import Awaitable, Callable, Sequence
 from http import HTTPStatus
@@ -528,6 +529,10 @@ def _deserialize_run_context(run_context: any_pb2.Any) -> tuple[list[int], list[
         or run_context_type == 'cirq.api.google.v2.RunContext'
     ):
         v2_run_context = v2.run_context_pb2.RunContext.FromString(run_context.value)
+        if v2_run_context.compressed_run_context:
+            v2_run_context = v2.run_context_pb2.RunContext.FromString(
+                gzip.decompress(v2_run_context.compressed_run_context)
+            )
         return [s.repetitions for s in v2_run_context.parameter_sweeps], [
             v2.sweep_from_proto(s.sweep) for s in v2_run_context.parameter_sweeps
         ]
